@@ -50,17 +50,25 @@ def roundRobin {α : Type} (rows : List (List α)) : List α := roundRobinAux (m
 
 /-! ### Deviation flags -/
 
-/-- `spec`: all off. -/
+/-- `spec`: all off.  Both deviations were repaired in /repo (d714329, 1acf5fd): the code today
+is `nestSpec`; `nestOld` is the code before those commits and is kept for the refutations. -/
 structure NestQuirks where
-  /-- selector.rs `resolve_ref`: the substituted compound is passed through
+  /-- (before d714329) selector.rs `resolve_ref`: the substituted compound is passed through
   `Selector::unify` with an empty compound, which de-duplicates classes and placeholders,
   moves the pseudo-element last (dropping further ones), drops `:host` combinations, and
   drops the selector when the outer selector ends in a combinator. -/
   ampViaUnify : Bool := false
+  /-- (before 1acf5fd) selector.rs `resolve_ref`: `s.compound.append(..).unwrap()` — a parent
+  that cannot take the suffix is a panic instead of the error
+  `Parent ".." is incompatible with this selector.` -/
+  suffixUnwrapPanics : Bool := false
   deriving Repr, DecidableEq
 
 def nestSpec : NestQuirks := {}
-def nestAsis : NestQuirks := { ampViaUnify := true }
+/-- the code as it is today -/
+def nestAsis : NestQuirks := {}
+/-- the code before d714329 / 1acf5fd -/
+def nestOld : NestQuirks := { ampViaUnify := true, suffixUnwrapPanics := true }
 
 /-! ### `Selector::nest` (no `&` in the inner selector) -/
 
@@ -209,7 +217,7 @@ end
 def SelSet.resolveRef (q : NestQuirks) (ctx : SelSet) (s : SelSet) : SelSet :=
   roundRobin (Selector.resolveRefRows q ctx s)
 
-/-! ### The `.unwrap()` in `resolve_ref` (C01 owns the panic; the model only reports it) -/
+/-! ### Failure of `CompoundSelector::append` in `resolve_ref` (an error; a panic before 1acf5fd) -/
 
 mutual
   /-- some `&`-compound of the selector cannot be appended to some outer compound -/
@@ -345,6 +353,22 @@ def renderBlocks (compressed : Bool) (b : List Block) : List Char := renderBlock
 end Sel
 
 namespace Sel
+
+/-- what compiling a sheet of rules gives -/
+inductive Outcome where
+  | ok (blocks : List Block)
+  | err
+  | panic
+
+/-- transform.rs: the first `&` that cannot be resolved aborts the compilation
+(`Invalid::AtError`, before 1acf5fd a panic); otherwise the emitted blocks -/
+def sheetOutcome (q : NestQuirks) (items : List Item) : Outcome :=
+  if Item.panicsList Ctx.root q items then (if q.suffixUnwrapPanics then .panic else .err)
+  else .ok (sheetBlocks q items)
+
+def Outcome.isPanic : Outcome → Bool
+  | .panic => true
+  | _ => false
 
 /-- shape of an inner selector accepted by the `nest` printing theorems: only the leftmost
 compound may be empty (a leading combinator `> b`), and then not with the descendant relation -/
